@@ -544,6 +544,24 @@ def grouped_name_cases(tier):
     return cases
 
 
+def late_defect_cases(tier):
+    """Long names whose first hundreds of characters are fine and whose defect sits far behind the start."""
+    cases = []
+    tails = ["\n", " ", "\u00e9", "-", "/", "//x", "/1", ";import os", "\nimport builtins; builtins.VERIF_C06_PWNED = True\nclass x(Record", ""]
+    for L in (200, 254, 255, 256, 257, 300, 1024, 4096, 70000):
+        for tail in tails:
+            long_ = "a" * L + tail
+            for ch in ("constructor", "stream", "json", "avro"):
+                cases.append({"name": long_, "fields": [("string", "ok")], "channel": ch, "role": "late-defect-type-name"})
+                if "/" not in tail:
+                    cases.append({"name": "t/ok", "fields": [("string", long_)], "channel": ch, "role": "late-defect-field-name"})
+                    cases.append({"name": "t/ok", "fields": [("string", long_), ("string", "class")], "channel": ch,
+                                  "role": "late-defect-field-name"})
+            cases.append({"name": "t/ok", "fields": [("string" + "x" * L + tail, "ok")], "channel": "constructor",
+                          "role": "late-defect-field-type"})
+    return cases
+
+
 def exhaustive_cases(tier):
     cases = []
     for role in ("type-name", "field-name", "field-type"):
@@ -634,6 +652,7 @@ def parts(tier):
         Part("template-identifiers", check_definition, cases=template_name_cases, exhaustive=True),
         Part("reserved-field-positions", check_definition, cases=reserved_position_cases, exhaustive=True),
         Part("null-field-list", check_definition, cases=null_field_list_cases, exhaustive=True),
+        Part("late-defects-in-long-names", check_definition, cases=late_defect_cases, exhaustive=True),
         Part("grouped-record-names", check_definition, cases=grouped_name_cases, exhaustive=True),
         Part("hostile-with-keyword-fields", check_definition, cases=hostile_with_keyword_cases, exhaustive=True),
         Part("generated", check_definition, strategy=generated_case(), examples=(250, 20000)),
